@@ -396,16 +396,25 @@ func (s *Session) stopSession(data any) {
 	s.maybeScheduleClusterWriteLoop()
 }
 
+// drainChannel discards whatever is queued in the channel without ever blocking: the write loop
+// may still be consuming it, so an item counted by len() can be gone by the time it is received.
+func drainChannel[T any](ch chan T) {
+	for {
+		select {
+		case _, ok := <-ch:
+			if !ok {
+				return
+			}
+		default:
+			return
+		}
+	}
+}
+
 func (s *Session) purgeChannels() {
-	for len(s.send) > 0 {
-		<-s.send
-	}
-	for len(s.stop) > 0 {
-		<-s.stop
-	}
-	for len(s.detach) > 0 {
-		<-s.detach
-	}
+	drainChannel(s.send)
+	drainChannel(s.stop)
+	drainChannel(s.detach)
 }
 
 // cleanUp is called when the session is terminated to perform resource cleanup.
